@@ -74,3 +74,65 @@ def run_pools(profile, rec, known, n_examples, hseed):
         rec.case(dict(case, part='pools'), bool(nt), cls, size=case['n'])
 
     return drive(check, W.st_pool_case(profile), n_examples, rec, known, hseed, shrink=False)
+
+
+def run_dfs(workloads, judge, nontrivial, rec, known, idx, nshards):
+    """Bounded-exhaustive part: every schedule with <= k preemptions (k per workload) of every listed workload."""
+    from ..common import Outcome
+    progcheck.setup_process()
+    out = Outcome()
+    total = 0
+    for wi, (wl, k) in enumerate(workloads):
+        if wi % nshards != idx:
+            continue
+
+        def on_run(case, tr):
+            rec.case(summarise(case, tr), nontrivial(case, tr), classes(case, tr) | {'dfs', f'dfs-preemptions<={k}'},
+                     size=case['n'])
+        try:
+            total += E.dfs_schedules(wl, k, judge, on_run)
+        except Violation as v:
+            if known.match(v.sig):
+                rec.known_hits[v.sig.split('|')[0]] += 1
+                continue
+            # the failing schedule is the last one executed: rebuild it from the message-free state
+            out.violation = (getattr(v, 'case', wl), v.sig, v.detail)
+            return out
+    rec.extra['dfs_runs'] = rec.extra.get('dfs_runs', 0) + total
+    rec.extra['dfs_workloads'] = rec.extra.get('dfs_workloads', 0) + sum(
+        1 for wi in range(len(workloads)) if wi % nshards == idx)
+    return out
+
+
+def dfs_workloads(profile, tier):
+    """(workload, max preemptions) pairs, exhaustive within the bound."""
+    nmax = 2 if tier == 'quick' else 3
+    out = []
+    for n in range(1, nmax + 1):
+        stp_k = 2 if tier == 'quick' else 3
+        pool_k = 1 if (tier == 'quick' and profile != 'plain') else 2
+        if tier == 'thorough' and n == 3 and profile != 'plain':
+            pool_k = 1
+        base = []
+        for b in (1, 2):
+            base.append(({'kind': 'stp', 'n': n, 'workers': 1, 'buffer': b}, stp_k))
+        for kind in ('lpm', 'pf', 'pm'):
+            for w, b in ((1, 1), (2, 2)):
+                wl = {'kind': kind, 'n': n, 'workers': w, 'buffer': b}
+                base.append((wl, pool_k))
+            base.append(({'kind': kind, 'n': n, 'workers': 2, 'buffer': 3, 'with_key': kind == 'pm'}, min(pool_k, 1)))
+        for wl, k in base:
+            if profile == 'plain':
+                out.append((wl, k))
+            elif profile == 'stop':
+                for stopk in range(0, n + 1):
+                    out.append((dict(wl, stop={'kind': 'close', 'k': stopk}), k))
+                out.append((dict(wl, stop={'kind': 'del', 'k': max(0, n - 1)}), k))
+            elif profile == 'fault':
+                for pos in range(n):
+                    for where in ('src_fail', 'fn_fail'):
+                        for exc in ('VErrA', 'VBase'):
+                            if exc == 'VBase' and pos != n - 1:
+                                continue
+                            out.append((dict(wl, **{where: {str(pos): exc}}), k))
+    return out
